@@ -225,6 +225,234 @@ def gen_spec(rng, *, strategy=None, n=None, nrow=None, header_mode=None, footnot
     return spec, info
 
 
+# ----------------------------------------------------------------------------- edge group keys
+# page_by / subline_by VALUES the sentinel scheme above never draws: the texts for which "is there a heading, and is
+# it reserved?" is decided by a special case somewhere in the code (calculate_row_metadata skips '-----', the renderer
+# skips None and — for the subline paragraph only — an empty joined text), and the texts that look like something
+# else ('None', 'nan', numbers, booleans, the column's own name, a heading so long that it wraps).
+
+EDGE_STR = {
+    "empty": [""], "blank": [" ", "  "], "null": [None], "divider": ["-----"], "str-None": ["None"],
+    "str-nan": ["nan", "NaN", "null", "NULL", "NA"], "str-num": ["0", "1.5", "-1", "007", "0.0"],
+    "str-bool": ["True", "False"],
+}
+_EDGE_WEIGHTS = ["empty"] * 5 + ["blank"] * 3 + ["null"] * 3 + ["divider"] * 2 + ["str-None", "str-nan", "str-num",
+                                                                                  "str-bool", "colname", "long"]
+
+
+def edge_kind(v, kc):
+    """the edge class of a group value (None = an ordinary tagged value)"""
+    if v is None:
+        return "null"
+    if isinstance(v, bool):
+        return "bool"
+    if isinstance(v, int):
+        return "int"
+    if isinstance(v, float):
+        return "float"
+    if v == kc:
+        return "colname"
+    for kind, vals in EDGE_STR.items():
+        if v in vals:
+            return kind
+    if " lorem" in v or " ipsum" in v or len(v) > 40:
+        return "long"
+    return None
+
+
+def heading_cost(names, vals, total):
+    """rows calculate_row_metadata adds at a group start: `" | ".join(f"{col}: {val}")` over the values whose str()
+    is not the divider, measured at font 1 / 9 pt against the table width; 0 when that text is empty"""
+    parts = [f"{c}: {v}" for c, v in zip(names, vals) if str(v) != "-----"]
+    txt = " | ".join(parts)
+    if not txt:
+        return 0
+    return max(1, int(measure(txt) / total) + 1)
+
+
+def _edge_value(rng, kc, total, allow_long=True, avoid=()):
+    """(kind, value) of the edge family for grouping column kc, with str(value) not in `avoid`"""
+    for _ in range(20):
+        kind = rng.choice(_EDGE_WEIGHTS)
+        if kind == "colname":
+            v = kc
+        elif kind == "long":
+            if not allow_long:
+                continue
+            tag = ("SB" if kc.startswith("SL") else f"G{kc[2:]}") + rng.choice("pqrs")
+            # the heading text is 'KC: value' (joined with the other levels'): aim the VALUE at the middle of the
+            # 2- or 3-line band of the table width, so that the joined text stays inside the band
+            v = band_text(rng, tag, rng.choice([2, 2, 3]), total - measure(f"{kc}: ") / 2)
+            if v == tag:
+                continue
+        else:
+            v = rng.choice(EDGE_STR[kind])
+        if str(v) not in avoid:
+            return kind, v
+    return "empty", ""
+
+
+def _runs(rows, idx, upto):
+    """maximal runs [a, b) of rows whose values in the key columns idx[0..upto] are equal (raw equality)"""
+    out = []
+    a = 0
+    n = len(rows)
+    while a < n:
+        b = a + 1
+        while b < n and all(rows[b][j] == rows[a][j] and type(rows[b][j]) is type(rows[a][j]) for j in idx[: upto + 1]):
+            b += 1
+        out.append((a, b))
+        a = b
+    return out
+
+
+def edge_keys(rng, spec, info, p=0.35):
+    """Rewrite group VALUES of a generated document with members of the edge family, at every level of
+    subline_by / page_by and for first / middle / last groups alike: whole runs get '', ' ', null, '-----', 'None',
+    'nan', numeric / boolean texts, the column's own name or a text long enough to wrap; one level may become a
+    genuinely numeric / boolean column (Int64 / Float64 / Boolean, with null groups).  Groups stay contiguous.
+    info['edge_keys'] switches laygen.classify to classification by elimination for headings."""
+    cols = spec["df"]["cols"]
+    rows = spec["df"]["rows"]
+    hier = info["hier"]
+    labels = info.setdefault("labels", [])
+    info["edge_keys"] = {}
+    if not hier or not rows:
+        return
+    idx = [cols.index(c) for c in hier]
+    total = info["col_total"]
+    long_level = rng.randrange(len(hier))           # at most one level carries wrapping values
+    numeric_level = rng.randrange(len(hier)) if rng.random() < 0.25 else None
+    for lvl, kc in enumerate(hier):
+        runs = _runs(rows, idx, lvl)
+        j = idx[lvl]
+        if lvl == numeric_level and not any(rows[a][j] == "-----" for a, _ in runs):
+            code = {}
+            for a, _ in runs:
+                code.setdefault(rows[a][j], len(code))
+            kind = rng.choice(["int", "float", "bool"] if len(code) <= 2 else ["int", "float", "int0"])
+            conv = {"int": lambda c: c, "int0": lambda c: c - 1, "float": lambda c: c / 2,
+                    "bool": lambda c: c == 1}[kind]
+            for a, b in runs:
+                v = None if rng.random() < 0.15 else conv(code[rows[a][j]])
+                for i in range(a, b):
+                    rows[i][j] = v
+            info["edge_keys"][kc] = "numeric:" + kind
+            labels.append(f"edge-key-column:{kind}@{'subline' if kc.startswith('SL') else 'page_by'}")
+            continue
+        force = {0} if rng.random() < 0.5 else set()
+        if rng.random() < 0.35:
+            force.add(len(runs) - 1)
+        prev = None
+        for r, (a, b) in enumerate(runs):
+            outer_same = r > 0 and all(rows[a][jj] == rows[a - 1][jj] for jj in idx[:lvl])
+            if r in force or rng.random() < p:
+                avoid = (str(prev),) if outer_same else ()
+                kind, v = _edge_value(rng, kc, total, allow_long=(lvl == long_level), avoid=avoid)
+                for i in range(a, b):
+                    rows[i][j] = v
+                pos = "first" if r == 0 else "last" if r == len(runs) - 1 else "middle"
+                where = "subline" if kc.startswith("SL") else f"page_by-L{lvl - len(info['subline_by'] or [])}"
+                labels.append(f"edge-key:{kind}@{where}")
+                labels.append(f"edge-key-pos:{pos}")
+                info["edge_keys"][kc] = "strings"
+            prev = rows[a][j]
+    labels.append("edge-keys-doc")
+    info["labels"] = sorted(set(labels))
+
+
+def aligned_keys(rng, spec, info, p_edge=0.5):
+    """Rewrite the (single-level) page_by column — and the subline_by column of a subline + page_by document — so
+    that NO group straddles a page under the row budget the code documents: every page starts at a group start and
+    many pages are filled exactly (rows + one reserved row per heading = nrow − reserved components).  Such pages
+    carry no continuation heading, so nothing but their own rows can explain an excess on them.  Half of the
+    groups get a value of the edge family.  For new_page documents (every group starts a page) groups are sized
+    around the page capacity instead.  Rows must be one line high (long_rows=False)."""
+    cols = spec["df"]["cols"]
+    rows = spec["df"]["rows"]
+    n = len(rows)
+    pb, sb = info["page_by"] or [], info["subline_by"] or []
+    labels = info.setdefault("labels", [])
+    info["edge_keys"] = {c: "strings" for c in pb + sb}
+    if not pb or len(pb) != 1 or not n:
+        return
+    total = info["col_total"]
+    h = spec["headers"]
+    nh = 0 if h == "default" else sum(1 for x in h if x.get("text") is not None)
+    additional = (1 if sb else 0) + nh + (info["footnote"] != "absent") + (info["source"] != "absent")
+    avail = max(1, info["nrow"] - additional)
+    kc = pb[0]
+    jp = cols.index(kc)
+    serial = [0]
+
+    # one document in five: the page_by column is a genuinely numeric / boolean column (0, 0.0 and False included)
+    numeric = rng.choice([[0, 1, 2, -1, 10], [0.0, 0.5, 1.0, 2.5], [False, True]]) if rng.random() < 0.2 else None
+    if numeric:
+        info["edge_keys"][kc] = "numeric:" + type(numeric[0]).__name__
+        labels.append(f"edge-key-column:{type(numeric[0]).__name__}@page_by")
+
+    def value(col, prev):
+        if numeric and col == kc:
+            pool = [v for v in numeric + ([None] if len(numeric) > 2 else []) if str(v) != str(prev)]
+            v = rng.choice(pool)
+            return edge_kind(v, col), v
+        if rng.random() < p_edge:
+            kind, v = _edge_value(rng, col, total, avoid=(str(prev),))
+        else:
+            serial[0] += 1
+            kind, v = None, ("SB" if col.startswith("SL") else "G0") + "abcdefgh"[serial[0] % 8] + str(serial[0])
+        return kind, v
+
+    def fill(a, b, first_cost, prev):
+        """tile rows [a, b) with page_by groups; `first_cost` rows are already used on the first page"""
+        cur = first_cost
+        i = a
+        while i < b:
+            kind, v = value(kc, prev)
+            cost = heading_cost([kc], [v], total)
+            if info["new_page"]:
+                room = max(1, avail - cost)
+                length = rng.choice([room, room, room + rng.randint(1, max(1, avail)), rng.randint(1, room)])
+            else:
+                room = avail - cur - cost
+                if room < 1:                       # the heading and one row do not fit any more: the page ends here
+                    cur = 0
+                    room = max(1, avail - cost)
+                length = room if rng.random() < 0.6 else rng.randint(1, room)
+                cur += cost + length
+                if cur >= avail:
+                    cur = 0
+            length = min(length, b - i)
+            for r in range(i, i + length):
+                rows[r][jp] = v
+            if kind:
+                pos = "first" if i == 0 else "last" if i + length >= n else "middle"
+                labels.append(f"edge-key:{kind}@page_by-L0")
+                labels.append(f"edge-key-pos:{pos}")
+            prev = v
+            i += length
+        return prev
+
+    if sb:
+        js = cols.index(sb[0])
+        i = 0
+        prev_s = prev_p = object()
+        while i < n:
+            kind, sv = value(sb[0], prev_s)
+            size = min(n - i, rng.randint(1, 3) * avail)
+            for r in range(i, i + size):
+                rows[r][js] = sv
+            if kind:
+                labels.append(f"edge-key:{kind}@subline")
+            prev_p = fill(i, i + size, heading_cost(sb, [sv], total), prev_p)
+            prev_s = sv
+            i += size
+    else:
+        fill(0, n, 0, object())
+    labels += ["edge-keys-doc", "edge-aligned-doc"]
+    info["labels"] = sorted(set(labels))
+
+
 def attr_at(value, r, c, default):
     """body attribute value at table position (r, c): scalar | per-column list | matrix (cyclic broadcast)"""
     if value is None:
@@ -311,6 +539,10 @@ def classify(doc: rtfread.Doc, info):
     pages = []
     raw = []
     nlev = len(info["page_by"] or [])
+    # edge group values (laygen.edge_keys / aligned_keys) carry no sentinel: headings are then recognised by elimination
+    # — every data row, explicit header, footnote and source of such a document IS tagged
+    edge = bool(info.get("edge_keys"))
+    spanning = bool(info.get("page_by")) and (not info.get("new_page") or info.get("pageby_row") != "column")
     for pno, page in enumerate(doc.pages):
         blocks = [["brk"]] if pno > 0 else []
         rblocks = [None] if pno > 0 else []
@@ -318,6 +550,9 @@ def classify(doc: rtfread.Doc, info):
             if b.kind in ("para", "loose"):
                 t = rtfread.para_text(b)
                 if not t.strip():
+                    if edge and info.get("subline_by") and t != "":
+                        blocks.append(["sublineHeading", t])      # a subline_by heading of blanks is still a paragraph
+                        rblocks.append(b)
                     continue
                 if t.startswith("TTL"):
                     blocks.append(["title"])
@@ -328,6 +563,8 @@ def classify(doc: rtfread.Doc, info):
                 elif t.startswith("SRCTXT"):
                     blocks.append(["source", False])
                 elif t.startswith("SB") or t.startswith("None"):
+                    blocks.append(["sublineHeading", t])
+                elif edge and info.get("subline_by") and not t.startswith("PG"):
                     blocks.append(["sublineHeading", t])
                 else:
                     blocks.append(["unknown-para", t[:40]])
@@ -349,6 +586,11 @@ def classify(doc: rtfread.Doc, info):
                         role = ["footnote", True]
                     elif t0.startswith("SRCTXT"):
                         role = ["source", True]
+                    elif edge and spanning and len(texts) == 1 and not t0.startswith("COL"):
+                        # a one-cell row that is no data row, header, footnote or source: a spanning row, whatever
+                        # it shows (nothing, blanks, 'None', a number, the column's name); level −1 = not decidable
+                        m = _GV.match(t0)
+                        role = ["heading", int(m.group(1)) if m else -1, t0]
                     elif len(texts) == 1 and _GV.match(t0):
                         role = ["heading", int(_GV.match(t0).group(1)), t0]
                     elif len(texts) == 1 and info.get("numeric_keys") and _NUMKEY.match(t0):
